@@ -3,6 +3,10 @@ package main
 // Models of standard-library and third-party functions on symbolic values.
 
 import (
+	"crypto/md5"
+	"crypto/sha1"
+	"crypto/sha256"
+	"encoding/hex"
 	"fmt"
 	"go/types"
 	"net/url"
@@ -791,6 +795,27 @@ func init() {
 				return TupleV{StrV{v}, mkBool(true)}
 			}
 			return TupleV{mkStr(""), mkBool(false)}
+		},
+		// ---------------------------------------------------------------- hashes, hex
+		// A digest is a function of its input: concrete input -> the real digest; symbolic input -> N arbitrary bytes,
+		// the same atom for the same (syntactically equal) input on one path. Over-approximates: more digests than real.
+		"crypto/md5.Sum":       func(in *Interp, fn *ssa.Function, a []Value) Value { return in.digest("md5", 16, a[0]) },
+		"crypto/sha1.Sum":      func(in *Interp, fn *ssa.Function, a []Value) Value { return in.digest("sha1", 20, a[0]) },
+		"crypto/sha256.Sum256": func(in *Interp, fn *ssa.Function, a []Value) Value { return in.digest("sha256", 32, a[0]) },
+		"encoding/hex.EncodeToString": func(in *Interp, fn *ssa.Function, a []Value) Value {
+			src := in.p.res(in.bytesContent(a[0].(BytesV)))
+			if src.isLit() {
+				return mkStr(hex.EncodeToString([]byte(src.litValue())))
+			}
+			n := in.concreteInt("hex-len", in.p.lenOf(src))
+			key := "hex:" + nfKey(src)
+			if v, ok := in.p.digests[key]; ok {
+				return StrV{v}
+			}
+			at := in.p.newAtom(in.p.uniq("hex"), setStr("0123456789abcdef"), 2*n, 2*n)
+			out := NF{{atom: at.id}}
+			in.p.digests[key] = out
+			return StrV{out}
 		},
 		"github.com/google/uuid.NewRandom": func(in *Interp, fn *ssa.Function, a []Value) Value {
 			hex := setStr("0123456789abcdef")
@@ -1808,4 +1833,47 @@ func stringsMap(in *Interp, fn *ssa.Function, a []Value) Value {
 		}
 	}
 	return StrV{out}
+}
+
+
+// digest: see the hash models.
+func (in *Interp) digest(kind string, n int64, arg Value) Value {
+	src := in.p.res(in.bytesContent(arg.(BytesV)))
+	var out NF
+	if src.isLit() {
+		switch kind {
+		case "md5":
+			d := md5.Sum([]byte(src.litValue()))
+			out = nfLit(string(d[:]))
+		case "sha1":
+			d := sha1.Sum([]byte(src.litValue()))
+			out = nfLit(string(d[:]))
+		default:
+			d := sha256.Sum256([]byte(src.litValue()))
+			out = nfLit(string(d[:]))
+		}
+	} else {
+		key := kind + ":" + nfKey(src)
+		if v, ok := in.p.digests[key]; ok {
+			out = v
+		} else {
+			at := in.p.newAtom(in.p.uniq(kind), setAll, n, n)
+			out = NF{{atom: at.id}}
+			in.p.digests[key] = out
+		}
+	}
+	return BytesV{o: in.newByteObj(out), off: linC(0), n: linC(n)}
+}
+
+// nfKey: a syntactic key of a resolved normal form (literal parts quoted, atoms by id).
+func nfKey(n NF) string {
+	var sb strings.Builder
+	for _, sg := range n {
+		if sg.atom == 0 {
+			fmt.Fprintf(&sb, "%q", sg.lit)
+		} else {
+			fmt.Fprintf(&sb, "<a%d>", sg.atom)
+		}
+	}
+	return sb.String()
 }
